@@ -8,7 +8,10 @@ Specifications for C11, independent of the kernels of sknetwork/topology:
                             `coreNumberSpec` computes it by exhaustive pruning (`kCore`), no heap, no peeling order
 * `tripleCount`           : number of connected triples (paths of length two, counted by their centre)
 * `clusteringSpec`        : 3 · triangles / connected triples
-The graph is `n` and a boolean adjacency predicate `adj` (symmetric and irreflexive for the theorems).
+The graph is `n` and a boolean adjacency predicate `adj`. The theorems about cliques and cores assume `adj` symmetric;
+none needs irreflexivity, but on a graph with loops `degIn`, `nbrs`, `tripleCount` count the loop as a neighbour, so
+`IsCoreNumber` / `clusteringSpec` are the named quantities (core number, clustering coefficient) only for loop-free
+`adj` — `C11_model` carries that hypothesis.
 -/
 import SkNet.Model.Basic
 
@@ -94,5 +97,12 @@ def tripleCount (n : Nat) (adj : Nat → Nat → Bool) : Nat :=
 def clusteringSpec (n : Nat) (adj : Nat → Nat → Bool) : Option Rat :=
   if tripleCount n adj = 0 then none
   else some (((3 * cliqueCount n adj 3 : Nat) : Rat) / (tripleCount n adj : Rat))
+
+/-- the same coefficient from the triangle count and the degree sequence alone (`#triples = Σ_v C(deg v, 2)`,
+    `Properties.C11.clusteringSpec_from_degrees`); used by the spec lines on graphs too large for the brute-force
+    counts (hubs of degree ≥ 46342) -/
+def clusteringFromDegrees (triangles : Nat) (degrees : List Nat) : Option Rat :=
+  let twice : Nat := (degrees.map fun d => d * (d - 1)).foldl (fun a b => a + b) 0
+  if twice = 0 then none else some (((3 * triangles : Nat) : Rat) / ((twice : Rat) / 2))
 
 end SkNet.Topology
